@@ -1069,7 +1069,9 @@ fn parsing_canonical_form(schema: &JsonValue, defined_names: &mut HashSet<String
         JsonValue::Object(map) => pcf_map(map, defined_names),
         JsonValue::String(s) => pcf_string(s),
         JsonValue::Array(v) => pcf_array(v, defined_names),
-        json => panic!("got invalid JSON value for canonical form of schema: {json}"),
+        // Attributes the canonical form keeps (a field's `order`, say) can hold any JSON value in
+        // a schema the parser accepted; it is written as it is.
+        json => json.to_string(),
     }
 }
 
@@ -1126,12 +1128,11 @@ fn pcf_map(schema: &Map<String, JsonValue>, defined_names: &mut HashSet<String>)
 
         // Strip off quotes surrounding "size" type, if they exist ([INTEGERS] rule).
         if k == "size" || k == "precision" || k == "scale" {
-            let i = match v.as_str() {
-                Some(s) => s
-                    .parse::<i64>()
-                    .expect("Only valid schemas are accepted!")
-                    .to_string(),
-                // Print the number as it is: it doesn't have to fit an i64 (sizes are unsigned)
+            let i = match v.as_str().and_then(|s| s.parse::<i64>().ok()) {
+                Some(i) => i.to_string(),
+                // Print the value as it is: a number doesn't have to fit an i64 (sizes are
+                // unsigned), and on a type that is not a decimal `precision` and `scale` are
+                // ordinary attributes that can hold any string
                 None => v.to_string(),
             };
             fields.push((k, format!("{}:{}", pcf_string(k), i)));
